@@ -199,7 +199,12 @@ Definition lp_apply_one (now : N) (n : node) : node :=
   | Some e =>
       let n1 := match e_kind e with
                 | KNoop => n
-                | KConf c => apply_configuration now n c
+                | KConf c =>
+                    let n' := apply_configuration now n c in
+                    match n_cfg_fid n' with
+                    | Some f => (respond n' f (FConf (conf_of n'))) <| n_cfg_fid := None |>
+                    | None => n'
+                    end
                 | KOp p =>
                     let fsm' := n_fsm n ++ [p] in
                     let n' := n <| n_fsm := fsm' |> <| n_applies ::= fun l => l ++ [(e_index e, e_term e, p)] |> in
@@ -312,7 +317,7 @@ Definition api_add_server (now : N) (n : node) (fid : N) (id : nid) (voter : boo
   let c := conf_of n in
   if is_member c id && Bool.eqb (is_voter c id) voter then respond n fid (FConf c) else
   let (n1, c') := append_configuration n {| c_index := 0; c_members := put id voter (c_members c) |} in
-  let n2 := set_follower (n1 <| n_conf := Some c' |>) id {| f_next := 1; f_match := 0; f_snap := None |} in
+  let n2 := set_follower (n1 <| n_conf := Some c' |> <| n_cfg_fid := Some fid |>) id {| f_next := 1; f_match := 0; f_snap := None |} in
   send_ae_to_peers now n2.
 
 Definition api_remove_server (now : N) (n : node) (fid : N) (id : nid) : node :=
@@ -322,7 +327,7 @@ Definition api_remove_server (now : N) (n : node) (fid : N) (id : nid) : node :=
   let c := conf_of n in
   if negb (is_member c id) then respond n fid (FConf c) else
   let (n1, _) := append_configuration n {| c_index := 0; c_members := remove_key id (c_members c) |} in
-  send_ae_to_peers now n1.
+  send_ae_to_peers now (n1 <| n_cfg_fid := Some fid |>).
 
 (* heartbeatLoop body *)
 Definition l_heartbeat (now : N) (n : node) : node :=
@@ -355,7 +360,7 @@ Definition restore (n : node) : node :=
 Definition crash (n : node) : node :=
   n <| n_role := Shutdown |> <| n_commit := 0 |> <| n_applied := 0 |> <| n_lii := 0 |> <| n_lit := 0 |>
     <| n_conf := None |> <| n_cconf := None |> <| n_leader := None |> <| n_followers := [] |>
-    <| n_pending := [] |> <| n_ro := [] |> <| n_should_verify := true |> <| n_lease := 0 |> <| n_contact := 0 |>
+    <| n_pending := [] |> <| n_ro := [] |> <| n_should_verify := true |> <| n_cfg_fid := None |> <| n_lease := 0 |> <| n_contact := 0 |>
     <| n_rounds := [] |> <| n_tasks := [] |> <| n_cv := conds0 |> <| n_iswait := [] |> <| n_fsm := [] |>
     <| n_partial := None |> <| n_budget := None |> <| n_frozen := false |> <| n_applies := [] |>
     <| n_term := 0 |> <| n_vote := None |>.
